@@ -75,6 +75,13 @@ Proof. exact (lin_segments fmap mop mres fmap_step). Qed.
 Theorem C04_range_ok_b : forall evs r, range_ok_b evs r = true <-> RangeOK evs r.
 Proof. exact range_ok_b_ok. Qed.
 
+(* the per-call judgement applied to every recorded LoadOrStoreLazy call (histories of any size, no search):
+   the constructor ran at most once; exactly once, and its value is what the call returned, when the call
+   reports stored; not at all when it reports loaded *)
+Theorem C04_lazy_calls_b : forall l, forallb lazy_call_ok_b l = true <-> Forall LazyCallOK l.
+Proof. exact lazy_calls_ok_spec. Qed.
+
+
 (* non-vacuity: a trace that inserts (with different heights), overwrites, deletes, clears;
    a linearizable history with two racing inserts of which exactly one wins, and the same history
    with both reporting success, which the checker rejects *)
@@ -400,6 +407,7 @@ Print Assumptions C04_lin_check_map.
 Print Assumptions C04_lin_check_set.
 Print Assumptions C04_lin_segments.
 Print Assumptions C04_range_ok_b.
+Print Assumptions C04_lazy_calls_b.
 Print Assumptions C04_lazyskip_inv.
 Print Assumptions C04_lazyskip_sorted.
 Print Assumptions C04_lazyskip_abs_frame.
